@@ -21,7 +21,7 @@ Alt(xs) == [k |-> "alt", xs |-> xs]
 And(xs) == [k |-> "and", xs |-> xs]
 Cat(xs) == [k |-> "cat", xs |-> xs]
 Star(t) == [k |-> "star", a |-> t]
-Eps == [k |-> "eps"]   All == [k |-> "all"]   None == [k |-> "none"]
+Eps == [k |-> "eps"]   All == [k |-> "all"]   None == [k |-> "none"]   SigmaPlus == [k |-> "sigmaplus"]
 AB == [k |-> "rng", lo |-> A, hi |-> B]
 
 Mk(t) == [do |-> "mk", t |-> t, c |-> 0]
@@ -33,12 +33,13 @@ Disturbers == <<
   [do |-> "empty", t |-> And(<<X, Y>>), c |-> 0],
   [do |-> "iter", t |-> Star(Alt(<<X, Y>>)), c |-> 0] >>
 
-Operands == {X, Not(X), Y, Eps, All, None}
+Operands == {X, Not(X), Y, Eps, All, None, SigmaPlus}      \* incl. every predefined term of a manager
 Targets ==
   {Alt(<<p, q>>) : p, q \in Operands} \cup {And(<<p, q>>) : p, q \in Operands}
   \cup {Alt(<<p, q, r>>) : p, q, r \in {X, Not(X), Y}} \cup {And(<<p, q, r>>) : p, q, r \in {X, Not(X), Y}}
   \cup {Alt(<<X, AB>>), Alt(<<AB, X>>), And(<<X, AB>>), And(<<AB, Not(X)>>), Alt(<<Not(AB), Not(X)>>),
-        [k |-> "diff", a |-> AB, xs |-> <<X>>], [k |-> "diff", a |-> All, xs |-> <<X, Not(X)>>],
+        [k |-> "diff", a |-> AB, xs |-> <<X>>], [k |-> "diff", a |-> X, xs |-> <<Eps>>], [k |-> "diff", a |-> AB, xs |-> <<Eps>>],
+        And(<<Cat(<<[k |-> "allchar"], SigmaPlus>>), Cat(<<[k |-> "allchar"], X>>)>>), [k |-> "diff", a |-> All, xs |-> <<X, Not(X)>>],
         [k |-> "diff", a |-> Alt(<<X, Y>>), xs |-> <<Y, None>>],
         Not(Alt(<<X, Not(X)>>)), Alt(<<Star(X), Eps>>), And(<<Star(X), Eps>>), Cat(<<Alt(<<X, Eps>>), All>>),
         Alt(<<Alt(<<X, Y>>), Not(Alt(<<Y, X>>))>>), And(<<And(<<X, Not(Y)>>), Not(And(<<X, Not(Y)>>))>>)}
